@@ -36,6 +36,7 @@ type MatCase struct {
 	Typ     string   `json:"typ,omitempty"` // element type of the matrices: "" (Float64 / Real64 by Real) | int | int32 | float32 | real32
 	F       int      `json:"f"` // element-wise: 0 add 1 sub 2 mul
 	Pat     string   `json:"pat"`
+	Conc    bool     `json:"conc,omitempty"` // MdotV / VdotM: call the concrete-typed twin MDOTV / VDOTM (round 7)
 	Parents []Parent `json:"parents"`
 	MR, MA, MB MView
 	VR, VA, VB VView
@@ -205,15 +206,31 @@ func (c *MatCase) exec() {
 		case "MdotV":
 			a := w.mview(c.MA)
 			c.Hdr[1] = hdrOf(a)
-			w.vview(c.VR).MdotV(a, w.vview(c.VB))
+			c.mdotv(w.vview(c.VR), a, w.vview(c.VB))
 		case "VdotM":
 			b := w.mview(c.MB)
 			c.Hdr[2] = hdrOf(b)
-			w.vview(c.VR).VdotM(w.vview(c.VA), b)
+			c.vdotm(w.vview(c.VR), w.vview(c.VA), b)
 		}
 	}()
 	if !c.Panic {
 		c.Post = w.heap(c)
+	}
+}
+
+// the generic call or (Conc) the concrete-typed twin
+func (c *MatCase) mdotv(r ad.DenseFloat64Vector, a ad.Matrix, b ad.DenseFloat64Vector) {
+	if c.Conc {
+		r.MDOTV(a.(*ad.DenseFloat64Matrix), b)
+	} else {
+		r.MdotV(a, b)
+	}
+}
+func (c *MatCase) vdotm(r ad.DenseFloat64Vector, a ad.DenseFloat64Vector, b ad.Matrix) {
+	if c.Conc {
+		r.VDOTM(a, b.(*ad.DenseFloat64Matrix))
+	} else {
+		r.VdotM(a, b)
 	}
 }
 
@@ -570,29 +587,37 @@ func genVec(r *Rng) *MatCase {
 			c.VB.Len--
 		}
 	default:
-		n, m := r.Range(1, 3), r.Range(1, 3)
+		pats := []string{"none", "r=b", "r-shift-b", "r,b-disjoint", "r-prefix-of-b", "b-prefix-of-r"}
+		c.Pat = pats[r.Intn(len(pats))]
+		rl, bl := r.Range(1, 3), r.Range(1, 3)
+		switch c.Pat { // round 7: same first cell, DIFFERENT lengths (non-square matrix): the rejection must not depend on the lengths
+		case "r-prefix-of-b":
+			rl = r.Range(1, 2)
+			bl = r.Range(rl+1, 3)
+		case "b-prefix-of-r":
+			bl = r.Range(1, 2)
+			rl = r.Range(bl+1, 3)
+		}
+		c.Conc = r.Intn(3) == 0
+		isV := r.Intn(2) == 0
+		n, m := rl, bl
+		if isV {
+			n, m = bl, rl
+		}
 		c.Parents = append(c.Parents, Parent{Rows: n + 1, Cols: m + 1, Vals: intVals(r, (n+1)*(m+1))})
 		mv, _ := randView(r, 0, n+1, m+1, n, m, true)
-		pats := []string{"none", "r=b", "r-shift-b", "r,b-disjoint"}
-		c.Pat = pats[r.Intn(len(pats))]
-		rl, bl := n, m
 		c.Call, c.MA = "MdotV", mv
-		if r.Intn(2) == 0 {
+		if isV {
 			c.Call, c.MB = "VdotM", mv
-			rl, bl = m, n
 		}
 		var vr, vb VView
 		switch c.Pat {
 		case "none":
 			vr, vb = VView{vp(rl + 1), 1, rl}, VView{vp(bl + 1), 0, bl}
-		case "r=b":
-			k := rl
-			if bl < k {
-				k = bl
-			}
+		case "r=b", "r-prefix-of-b", "b-prefix-of-r":
+			o := r.Range(0, 1)
 			p := vp(rl + bl + 1)
-			vr, vb = VView{p, 1, rl}, VView{p, 1, bl}
-			_ = k
+			vr, vb = VView{p, o, rl}, VView{p, o, bl}
 		case "r-shift-b":
 			p := vp(rl + bl + 2)
 			vr, vb = VView{p, 1, rl}, VView{p, 0, bl}
@@ -724,11 +749,11 @@ func (c *MatCase) aliasedResult() (post []float64, panicked bool) {
 		post = append(post, r...)
 	case "MdotV":
 		r := w.vview(c.VR)
-		r.MdotV(w.mview(c.MA), w.vview(c.VB))
+		c.mdotv(r, w.mview(c.MA), w.vview(c.VB))
 		post = append(post, r...)
 	case "VdotM":
 		r := w.vview(c.VR)
-		r.VdotM(w.vview(c.VA), w.mview(c.MB))
+		c.vdotm(r, w.vview(c.VA), w.mview(c.MB))
 		post = append(post, r...)
 	}
 	return post, false
